@@ -494,3 +494,44 @@ func zxC14TruncatingFlush() {
 	}
 	vrtReach("C14.W")
 }
+
+// C14.R — "once a period has expired and a truncating flush has run (at most ten data-carrying
+// flushes) it is absent from disk", across restarts: key x is stored and flushed, then expires;
+// eleven further data-carrying flushes (for another key) follow, each through the real
+// doProcessFlush, with the process restarted (real openRowStore on the files left behind) never,
+// after every flush, or after every third flush. Afterwards x is gone from disk.
+//
+//zx:harness prop=C14 id=C14.R tier=quick env=fs,sum shard=restartEvery:3
+func zxC14CadenceAcrossRestarts() {
+	zxFSReset()
+	fields := core.Fields{core.PointsField, zxFieldA}
+	t, rs := zxTable(fields)
+	t.RetentionPeriod = 10 * time.Minute
+	zxInsert(rs, rs.memStore, "x", zxNow.Add(-5*time.Second), map[string]float64{"a": 7}, 0, 10)
+	rs.doProcessFlush(rs.memStore, false, false)
+	t.RetentionPeriod = 2 * time.Second // x's only period ended 5 s ago: expired from here on
+	restartEvery := []int{0, 1, 3}[vrtShape("restartEvery", 3)]
+	for i := 1; i <= 11; i++ {
+		zxInsert(rs, rs.memStore, "z", zxNow, map[string]float64{"a": 1}, 0, int64(10+10*i))
+		rs.doProcessFlush(rs.memStore, false, false)
+		if restartEvery > 0 && i%restartEvery == 0 {
+			rs2, offs, err := t.openRowStore(&rowStoreOptions{dir: "/data/t"})
+			vrtAssert(err == nil, "the row store reopens")
+			if err != nil {
+				return
+			}
+			rs2.memStore = rs2.newMemStore(offs) // first statement of processInserts
+			t.rowStore, rs = rs2, rs2
+		}
+	}
+	rows, _, err := zxScan(rs, nil, nil, -1, -1)
+	vrtAssert(err == nil, "the disk scans")
+	xOnDisk := false
+	for _, r := range rows {
+		if r.key == "x" {
+			xOnDisk = true
+		}
+	}
+	vrtAssert(!xOnDisk, "an expired key is gone from disk after twelve data-carrying flushes (process restarted after every "+zxItoa(restartEvery)+" flushes; 0 = never)")
+	vrtReach("C14.R")
+}
